@@ -687,7 +687,7 @@ func c20Purity(c *Ctx) {
 		}
 	}
 	nFns, nWrites := runEffects(c, "static.pure", roots, pkgs, cut, "a static accessor modifies the syntax tree (or another caller's data) it was asked to describe")
-	c.Floor("static.pure roots", len(roots), 15, "package-level accessors and the accessor methods of the expression types")
+	c.Floor("static.pure roots", len(roots), 12, "package-level accessors and the accessor methods of the expression types")
 	c.Floor("static.pure functions", nFns, 20, "functions reachable from the static accessors")
 	c.Floor("static.pure writes", nWrites, 10, "writes classified")
 }
